@@ -46,6 +46,24 @@
 (* and a close of the source's new connection goes unnoticed).  DevStaleSrc = FALSE models        *)
 (* SetSourceConnection closing the connection it replaces.                                        *)
 (*                                                                                                *)
+(* Reads that carry bytes AND an error (io.Reader allows it; deadline-polling transports do it):   *)
+(* GlitchData = the next read returns its bytes together with a temporary timeout; CloseEnd /     *)
+(* ErrorEnd with w = "data" = the last read returns its bytes together with io.EOF / with the     *)
+(* connection error.  CopyWithControl handles the bytes first (`if nr > 0`), then the error:      *)
+(* `rdErr[d]` remembers what came with the chunk in the buffer; after the Write a timeout means   *)
+(* `continue`, anything else leaves the loop.                                                     *)
+(*                                                                                                *)
+(* Pacing and closing: with split waits a chunk larger than the burst is paid for piece by piece  *)
+(* (`paid[d]`), the clock (Refill) refilling the bucket in between.  Each piece is a              *)
+(* WaitN(ctx, piece): Close() cancels the context and the copier leaves at once.  A wait that     *)
+(* cannot be cancelled (ReserveN + time.Sleep, context looked at only on entry) is the named      *)
+(* variant DevSleepLimiter: the copier sits out the rest of the pacing although the tunnel is     *)
+(* over.  "Bounded time" is expressed through fairness: after Close() nothing may depend on the   *)
+(* pacing clock any more (Refill is only fair while the bridge is open), so TLC reports the       *)
+(* stuttering copier as a liveness failure of Forgotten (Bridge_show_sleep.cfg).  Limit class     *)
+(* "slow" (1 KiB/s, burst 2 KiB: one 32 KiB chunk takes 30 s) is `tiny` with rates that make      *)
+(* the remaining pacing exceed the watchdog.                                                      *)
+(*                                                                                                *)
 (* Configurations: Bridge_mc.cfg (as found, clauses in "or the named deviation happened" form),   *)
 (* Bridge_fixed.cfg (as the statement needs it, strict clauses), Bridge_live.cfg /                *)
 (* Bridge_live_fixed.cfg (liveness under weak fairness, as found / as needed), Bridge_gen.cfg     *)
@@ -63,21 +81,23 @@ CONSTANTS BUF,         \* copy buffer size (model scale, >= 3)
           DevLimiter,  \* TRUE: limiter as found (error when n > burst); FALSE: split waits
           DevNilFwd,   \* TRUE: goroutines read b.targetForwarder when they start (as found); FALSE: snapshot
           DevStaleSrc, \* TRUE: a replaced source connection is left open (as found); FALSE: it is closed
+          DevSleepLimiter, \* TRUE: limiter waits cannot be cancelled by Close() (seeded variant); FALSE: WaitN(ctx)
           Gen,         \* TRUE: generation mode (history kept)
           Emit         \* TRUE: print behaviours
 
 VARIABLES lim, tokens, paid,
           attached, endSt, avail, sent, delivered, rdOff, inflight, pc,
           armed, glitch, nfault, bridgeClosed, registered, nsend, ended,
+          endMode, rdErr,
           replaced, oldClosed, rdgen,
           devLimErr, devStale, lost, misorder, crashed, dropped,
           hist
 
 vars == <<lim, tokens, paid, attached, endSt, avail, sent, delivered, rdOff, inflight, pc,
-          armed, glitch, nfault, bridgeClosed, registered, nsend, ended, replaced, oldClosed, rdgen,
+          armed, glitch, nfault, bridgeClosed, registered, nsend, ended, endMode, rdErr, replaced, oldClosed, rdgen,
           devLimErr, devStale, lost, misorder, crashed, dropped, hist>>
 view == <<lim, tokens, paid, attached, endSt, avail, sent, delivered, rdOff, inflight, pc,
-          armed, glitch, nfault, bridgeClosed, registered, nsend, ended, replaced, oldClosed, rdgen,
+          armed, glitch, nfault, bridgeClosed, registered, nsend, ended, endMode, rdErr, replaced, oldClosed, rdgen,
           devLimErr, devStale, lost, misorder, crashed, dropped>>
 
 Ends  == {"S", "T"}
@@ -92,9 +112,9 @@ RECURSIVE SumSeq(_)
 SumSeq(q) == IF q = <<>> THEN 0 ELSE Head(q) + SumSeq(Tail(q))
 
 Size(c) == CASE c = "one" -> 1 [] c = "Bm1" -> BUF - 1 [] c = "B" -> BUF [] c = "Bp1" -> BUF + 1 [] c = "big" -> 2 * BUF
-Paced(l) == l \in {"tiny", "edge"}
-Burst(l) == CASE l = "tiny" -> 1 [] l = "edge" -> BUF [] OTHER -> 0
-ASSUME BUF >= 3 /\ Lims \subseteq {"none", "tiny", "edge", "large"} /\ Classes \subseteq {"one", "Bm1", "B", "Bp1", "big"}
+Paced(l) == l \in {"tiny", "edge", "slow"}
+Burst(l) == CASE l = "tiny" -> 1 [] l = "slow" -> 1 [] l = "edge" -> BUF [] OTHER -> 0
+ASSUME BUF >= 3 /\ Lims \subseteq {"none", "tiny", "edge", "large", "slow"} /\ Classes \subseteq {"one", "Bm1", "B", "Bp1", "big"}
 
 \* the connection an end currently writes to / the copier of direction d currently reads
 SendChan(e) == IF e = "T" THEN "t" ELSE IF replaced THEN "s2" ELSE "s1"
@@ -109,7 +129,8 @@ Init == /\ lim \in Lims /\ tokens = Burst(lim) /\ paid = [d \in Dirs |-> 0]
         /\ sent = [d \in Dirs |-> 0] /\ delivered = [d \in Dirs |-> 0]
         /\ rdOff = [d \in Dirs |-> 0] /\ inflight = [d \in Dirs |-> 0]
         /\ pc = [d \in Dirs |-> "idle"]
-        /\ armed = [e \in Ends |-> FALSE] /\ glitch = [e \in Ends |-> FALSE] /\ nfault = 0
+        /\ armed = [e \in Ends |-> FALSE] /\ glitch = [e \in Ends |-> "no"] /\ nfault = 0
+        /\ endMode = [e \in Ends |-> "plain"] /\ rdErr = [d \in Dirs |-> "none"]
         /\ bridgeClosed = FALSE /\ registered = TRUE /\ nsend = 0 /\ ended = "none"
         /\ replaced = FALSE /\ oldClosed = FALSE /\ rdgen = 1
         /\ devLimErr = FALSE /\ devStale = FALSE /\ lost = [d \in Dirs |-> 0] /\ misorder = FALSE /\ crashed = FALSE /\ dropped = 0
@@ -121,7 +142,7 @@ H(x) == IF Gen THEN hist' = Append(hist, x) /\ Out(hist') ELSE hist' = hist
 NoH  == hist' = hist
 
 LimU   == UNCHANGED <<lim, tokens, paid>>
-CopU   == UNCHANGED <<sent, delivered, rdOff, inflight, pc, rdgen>>
+CopU   == UNCHANGED <<sent, delivered, rdOff, inflight, pc, rdgen, rdErr>>
 FaultU == UNCHANGED <<armed, glitch, nfault>>
 RepU   == UNCHANGED <<replaced, oldClosed>>
 DevU   == UNCHANGED <<devLimErr, devStale, lost, misorder, crashed, dropped>>
@@ -135,7 +156,7 @@ Send(e, c) ==
   /\ sent' = [sent EXCEPT ![OutOf(e)] = @ + Size(c)]
   /\ H([a |-> "send", e |-> e, c |-> c])
   /\ LimU /\ FaultU /\ RepU /\ DevU
-  /\ UNCHANGED <<attached, endSt, delivered, rdOff, inflight, pc, rdgen, bridgeClosed, registered, ended>>
+  /\ UNCHANGED <<attached, endSt, delivered, rdOff, inflight, pc, rdgen, bridgeClosed, registered, ended, endMode, rdErr>>
 
 \* SetTargetConnection: close(ready); Start() leaves its select and launches the two copiers; the s2t
 \* goroutine loads the source forwarder that is current at that moment (a replacement that slips in
@@ -147,24 +168,34 @@ Attach ==
   /\ rdgen' = IF replaced THEN 2 ELSE 1
   /\ H([a |-> "attach"])
   /\ LimU /\ FaultU /\ RepU /\ DevU
-  /\ UNCHANGED <<endSt, avail, sent, delivered, rdOff, inflight, bridgeClosed, registered, nsend, ended>>
+  /\ UNCHANGED <<endSt, avail, sent, delivered, rdOff, inflight, bridgeClosed, registered, nsend, ended, endMode, rdErr>>
 
-\* an end closes its connection (what it wrote before stays readable, then EOF; writes to it fail)
-CloseEnd(e) ==
-  /\ ended = "none" /\ endSt[e] = "open" /\ registered /\ ~bridgeClosed
+\* an end may only end the tunnel under the "slow" limit when nothing of its own is still being paced
+\* out (generation only): closure then has to come at once, not after 30 s of legitimate pacing
+NoBacklog(e) == (Gen /\ lim = "slow") => sent[OutOf(e)] = delivered[OutOf(e)]
+
+\* an end closes its connection (what it wrote before stays readable, then EOF; writes to it fail);
+\* w = "data": the read that takes the last bytes returns them together with io.EOF
+CloseEnd(e, w) ==
+  /\ ended = "none" /\ endSt[e] = "open" /\ registered /\ ~bridgeClosed /\ NoBacklog(e)
+  /\ (w = "data" => Faults)
   /\ endSt' = [endSt EXCEPT ![e] = "closed"]
+  /\ endMode' = [endMode EXCEPT ![e] = w]
   /\ ended' = "close"
-  /\ H([a |-> "close", e |-> e])
+  /\ H([a |-> "close", e |-> e, w |-> w])
   /\ LimU /\ CopU /\ FaultU /\ RepU /\ DevU
   /\ UNCHANGED <<attached, avail, bridgeClosed, registered, nsend>>
 
-\* an end's connection fails (reset): unread bytes are gone, reads and writes fail
-ErrorEnd(e) ==
-  /\ ended = "none" /\ endSt[e] = "open" /\ registered /\ ~bridgeClosed
+\* an end's connection fails (reset): unread bytes are gone, reads and writes fail;
+\* w = "data": the failing read still returns what it had in hand (one buffer-full at most) with the error
+ErrorEnd(e, w) ==
+  /\ ended = "none" /\ endSt[e] = "open" /\ registered /\ ~bridgeClosed /\ NoBacklog(e)
+  /\ (w = "data" => Faults /\ avail[SendChan(e)] # <<>>)
   /\ endSt' = [endSt EXCEPT ![e] = "failed"]
-  /\ avail' = [avail EXCEPT ![SendChan(e)] = <<>>]
+  /\ endMode' = [endMode EXCEPT ![e] = w]
+  /\ avail' = [avail EXCEPT ![SendChan(e)] = IF w = "data" THEN <<Min(BUF, Head(@))>> ELSE <<>>]
   /\ ended' = "error"
-  /\ H([a |-> "error", e |-> e])
+  /\ H([a |-> "error", e |-> e, w |-> w])
   /\ LimU /\ CopU /\ FaultU /\ RepU /\ DevU
   /\ UNCHANGED <<attached, bridgeClosed, registered, nsend>>
 
@@ -174,15 +205,16 @@ Arm(e) ==
   /\ armed' = [armed EXCEPT ![e] = TRUE] /\ nfault' = 1 /\ glitch' = glitch
   /\ H([a |-> "arm", e |-> e])
   /\ LimU /\ CopU /\ RepU /\ DevU
-  /\ UNCHANGED <<attached, endSt, avail, bridgeClosed, registered, nsend, ended>>
+  /\ UNCHANGED <<attached, endSt, avail, bridgeClosed, registered, nsend, ended, endMode>>
 
-\* the next Read on end e's connection returns a temporary timeout error (retried by the loop)
-Glitch(e) ==
+\* k = "t0": the next Read on end e's connection returns (0, temporary timeout) - retried by the loop;
+\* k = "tn": the next Read that has bytes returns them TOGETHER WITH a temporary timeout
+Glitch(e, k) ==
   /\ Faults /\ nfault = 0 /\ ended = "none" /\ endSt[e] = "open" /\ registered /\ ~bridgeClosed
-  /\ glitch' = [glitch EXCEPT ![e] = TRUE] /\ nfault' = 1 /\ armed' = armed
-  /\ H([a |-> "glitch", e |-> e])
+  /\ glitch' = [glitch EXCEPT ![e] = k] /\ nfault' = 1 /\ armed' = armed
+  /\ H([a |-> "glitch", e |-> e, k |-> k])
   /\ LimU /\ CopU /\ RepU /\ DevU
-  /\ UNCHANGED <<attached, endSt, avail, bridgeClosed, registered, nsend, ended>>
+  /\ UNCHANGED <<attached, endSt, avail, bridgeClosed, registered, nsend, ended, endMode>>
 
 \* the source client re-opens the tunnel on a new connection (handleExistingBridge)
 ReplaceSource ==
@@ -196,7 +228,7 @@ ReplaceSource ==
           /\ dropped' = dropped + SumSeq(avail["s1"])
   /\ H([a |-> "replace"])
   /\ LimU /\ CopU /\ FaultU
-  /\ UNCHANGED <<attached, endSt, bridgeClosed, registered, nsend, ended, devLimErr, devStale, lost, misorder, crashed>>
+  /\ UNCHANGED <<attached, endSt, bridgeClosed, registered, nsend, ended, endMode, devLimErr, devStale, lost, misorder, crashed>>
 
 \* the replaced connection finally ends (the client or the network closes it)
 CloseOld ==
@@ -204,7 +236,7 @@ CloseOld ==
   /\ oldClosed' = TRUE /\ replaced' = replaced
   /\ H([a |-> "closeold"])
   /\ LimU /\ CopU /\ FaultU /\ DevU
-  /\ UNCHANGED <<attached, endSt, avail, bridgeClosed, registered, nsend, ended>>
+  /\ UNCHANGED <<attached, endSt, avail, bridgeClosed, registered, nsend, ended, endMode>>
 
 \* ---- the bridge ------------------------------------------------------------------------------
 \* CopyWithControl of direction d returned.  The s2t goroutine re-enters it when the source
@@ -214,7 +246,8 @@ ExitCopy(d) ==
   THEN rdgen' = 2 /\ pc' = [pc EXCEPT ![d] = "read"]
   ELSE rdgen' = rdgen /\ pc' = [pc EXCEPT ![d] = "done"]
 
-Drop(d) == lost' = [lost EXCEPT ![d] = @ + inflight[d]] /\ inflight' = [inflight EXCEPT ![d] = 0]
+Drop(d) == /\ lost' = [lost EXCEPT ![d] = @ + inflight[d]] /\ inflight' = [inflight EXCEPT ![d] = 0]
+           /\ rdErr' = [rdErr EXCEPT ![d] = "none"]
 
 \* the t2s goroutine starts running: it evaluates b.targetForwarder and enters CopyWithControl
 Enter(d) ==
@@ -228,7 +261,7 @@ Enter(d) ==
   /\ NoH
   /\ LimU /\ FaultU /\ RepU
   /\ UNCHANGED <<attached, endSt, avail, sent, delivered, rdOff, inflight, rdgen, bridgeClosed, nsend, ended,
-                 devLimErr, devStale, lost, misorder, dropped>>
+                 endMode, rdErr, devLimErr, devStale, lost, misorder, dropped>>
 
 \* src.Read(buf)
 Read(d) ==
@@ -236,55 +269,67 @@ Read(d) ==
   /\ LET ch == RdChan(d) src == Src(d) IN
      \/ \* the bridge closed this connection: Read fails
         /\ bridgeClosed /\ ~OnOld(d)
-        /\ ExitCopy(d) /\ UNCHANGED <<avail, rdOff, inflight, glitch>>
-     \/ \* transient timeout: `continue`
-        /\ ~bridgeClosed /\ ~OnOld(d) /\ glitch[src]
-        /\ glitch' = [glitch EXCEPT ![src] = FALSE]
-        /\ UNCHANGED <<avail, rdOff, inflight, pc, rdgen>>
-     \/ \* data: one buffer-full at most, never across the end's write boundaries
-        /\ (bridgeClosed => OnOld(d)) /\ (OnOld(d) \/ ~glitch[src])
-        /\ avail[ch] # <<>> /\ (OnOld(d) \/ endSt[src] # "failed")
-        /\ LET n == Min(BUF, Head(avail[ch])) IN
+        /\ ExitCopy(d) /\ UNCHANGED <<avail, rdOff, inflight, glitch, rdErr>>
+     \/ \* transient timeout without bytes: `continue`
+        /\ ~bridgeClosed /\ ~OnOld(d) /\ glitch[src] = "t0"
+        /\ glitch' = [glitch EXCEPT ![src] = "no"]
+        /\ UNCHANGED <<avail, rdOff, inflight, pc, rdgen, rdErr>>
+     \/ \* data: one buffer-full at most, never across the end's write boundaries - possibly together
+        \* with a temporary timeout, with io.EOF (last bytes of a closed end) or with the connection error
+        /\ (bridgeClosed => OnOld(d)) /\ (OnOld(d) \/ glitch[src] # "t0")
+        /\ avail[ch] # <<>> /\ (OnOld(d) \/ endSt[src] # "failed" \/ endMode[src] = "data")
+        /\ LET n    == Min(BUF, Head(avail[ch]))
+               last == Len(avail[ch]) = 1 /\ Head(avail[ch]) <= BUF
+               with == IF OnOld(d) THEN "none"
+                       ELSE IF endSt[src] = "failed" THEN "err"
+                       ELSE IF endSt[src] = "closed" /\ endMode[src] = "data" /\ last THEN "eof"
+                       ELSE "none"       \* (a timeout that comes with the bytes is retried: same as none)
+           IN
            /\ inflight' = [inflight EXCEPT ![d] = n]
            /\ rdOff' = [rdOff EXCEPT ![d] = @ + n]
            /\ avail' = [avail EXCEPT ![ch] = IF Head(@) > n THEN <<Head(@) - n>> \o Tail(@) ELSE Tail(@)]
+           /\ rdErr' = [rdErr EXCEPT ![d] = with]
+           /\ glitch' = IF ~OnOld(d) /\ glitch[src] = "tn" /\ with = "none" THEN [glitch EXCEPT ![src] = "no"] ELSE glitch
            /\ pc' = [pc EXCEPT ![d] = IF lim = "none" THEN "write" ELSE "limit"]
-        /\ UNCHANGED <<rdgen, glitch>>
-     \/ \* end of stream / read error
-        /\ (bridgeClosed => OnOld(d)) /\ (OnOld(d) \/ ~glitch[src])
+        /\ UNCHANGED <<rdgen>>
+     \/ \* end of stream / read error without bytes
+        /\ (bridgeClosed => OnOld(d)) /\ (OnOld(d) \/ glitch[src] # "t0")
         /\ IF OnOld(d) THEN avail[ch] = <<>> /\ oldClosed
-           ELSE (avail[ch] = <<>> /\ endSt[src] = "closed") \/ endSt[src] = "failed"
-        /\ ExitCopy(d) /\ UNCHANGED <<avail, rdOff, inflight, glitch>>
+           ELSE avail[ch] = <<>> /\ endSt[src] \in {"closed", "failed"}
+        /\ ExitCopy(d) /\ UNCHANGED <<avail, rdOff, inflight, glitch, rdErr>>
   /\ H([a |-> "R", d |-> d])
   /\ UNCHANGED <<lim, tokens, paid, attached, endSt, sent, delivered, armed, nfault, bridgeClosed, registered,
-                 nsend, ended>> /\ RepU /\ DevU
+                 nsend, ended, endMode>> /\ RepU /\ DevU
 
 \* rateLimiter.WaitN(ctx, n)
 Limit(d) ==
   /\ pc[d] = "limit"
   /\ \/ \* context cancelled (Close): error, the chunk is dropped - the tunnel is ending anyway
-        /\ bridgeClosed
+        \* (the seeded variant looks at the context only when it enters the wait)
+        /\ bridgeClosed /\ (DevSleepLimiter => paid[d] = 0)
         /\ Drop(d) /\ ExitCopy(d) /\ paid' = [paid EXCEPT ![d] = 0]
         /\ UNCHANGED <<tokens, devLimErr>>
      \/ /\ ~bridgeClosed /\ lim = "large"
         /\ pc' = [pc EXCEPT ![d] = "write"]
-        /\ UNCHANGED <<tokens, paid, devLimErr, lost, inflight, rdgen>>
+        /\ UNCHANGED <<tokens, paid, devLimErr, lost, inflight, rdgen, rdErr>>
      \/ \* DEVIATION (DESIGN.md 6 row 16): n exceeds the burst => WaitN fails immediately
         /\ ~bridgeClosed /\ Paced(lim) /\ DevLimiter /\ inflight[d] > Burst(lim)
         /\ devLimErr' = TRUE
         /\ Drop(d) /\ ExitCopy(d)
         /\ UNCHANGED <<tokens, paid>>
      \/ \* enough tokens: take them (as found: the whole chunk; split form: as many as there are)
-        /\ ~bridgeClosed /\ Paced(lim) /\ (DevLimiter => inflight[d] <= Burst(lim))
+        \* (one piece = one WaitN(ctx, piece); the seeded variant sleeps on although the bridge is closed)
+        /\ (~bridgeClosed \/ (DevSleepLimiter /\ paid[d] > 0))
+        /\ Paced(lim) /\ (DevLimiter => inflight[d] <= Burst(lim))
         /\ tokens > 0 /\ (DevLimiter => tokens >= inflight[d])
         /\ LET k == Min(tokens, inflight[d] - paid[d]) IN
            /\ tokens' = tokens - k
            /\ IF paid[d] + k = inflight[d]
               THEN paid' = [paid EXCEPT ![d] = 0] /\ pc' = [pc EXCEPT ![d] = "write"]
               ELSE paid' = [paid EXCEPT ![d] = @ + k] /\ pc' = pc
-        /\ UNCHANGED <<devLimErr, lost, inflight, rdgen>>
+        /\ UNCHANGED <<devLimErr, lost, inflight, rdgen, rdErr>>
   /\ NoH
-  /\ UNCHANGED <<lim, attached, endSt, avail, sent, delivered, rdOff, bridgeClosed, registered, nsend, ended,
+  /\ UNCHANGED <<lim, attached, endSt, avail, sent, delivered, rdOff, bridgeClosed, registered, nsend, ended, endMode,
                  devStale, misorder, crashed, dropped>> /\ FaultU /\ RepU
 
 \* time passes: the bucket refills (only interesting while a copier waits)
@@ -292,7 +337,7 @@ Refill ==
   /\ Paced(lim) /\ tokens < Burst(lim) /\ \E d \in Dirs : pc[d] = "limit"
   /\ tokens' = Burst(lim)
   /\ NoH
-  /\ UNCHANGED <<lim, paid, attached, endSt, avail, bridgeClosed, registered, nsend, ended>>
+  /\ UNCHANGED <<lim, paid, attached, endSt, avail, bridgeClosed, registered, nsend, ended, endMode>>
   /\ CopU /\ FaultU /\ RepU /\ DevU
 
 \* dst.Write(buf[:n])
@@ -309,6 +354,7 @@ Write(d) ==
            /\ delivered' = [delivered EXCEPT ![d] = @ + k]
            /\ misorder' = (misorder \/ rdOff[d] - n # delivered[d])
            /\ lost' = [lost EXCEPT ![d] = @ + (n - k)] /\ inflight' = [inflight EXCEPT ![d] = 0]
+        /\ rdErr' = [rdErr EXCEPT ![d] = "none"]
         /\ endSt' = [endSt EXCEPT ![dst] = "failed"]
         /\ armed' = [armed EXCEPT ![dst] = FALSE]
         /\ ended' = IF ended = "none" THEN "error" ELSE ended
@@ -317,10 +363,12 @@ Write(d) ==
         /\ delivered' = [delivered EXCEPT ![d] = @ + n]
         /\ misorder' = (misorder \/ rdOff[d] - n # delivered[d])
         /\ inflight' = [inflight EXCEPT ![d] = 0]
-        /\ pc' = [pc EXCEPT ![d] = "read"]
-        /\ UNCHANGED <<endSt, armed, ended, lost, rdgen>>
+        \* `if err != nil`: a timeout that came with the bytes is retried, EOF / an error end the loop
+        /\ IF rdErr[d] = "none" THEN pc' = [pc EXCEPT ![d] = "read"] /\ rdgen' = rdgen ELSE ExitCopy(d)
+        /\ rdErr' = [rdErr EXCEPT ![d] = "none"]
+        /\ UNCHANGED <<endSt, armed, ended, lost>>
   /\ H([a |-> "W", d |-> d])
-  /\ UNCHANGED <<lim, tokens, paid, attached, avail, sent, rdOff, glitch, nfault, bridgeClosed, registered, nsend,
+  /\ UNCHANGED <<lim, tokens, paid, attached, avail, sent, rdOff, glitch, nfault, bridgeClosed, registered, nsend, endMode,
                  devLimErr, devStale, crashed, dropped>> /\ RepU
 
 \* closeBridge(): the first copier goroutine that ends runs Bridge.Close() - the current source
@@ -330,7 +378,7 @@ CloseBridge ==
   /\ bridgeClosed' = TRUE
   /\ NoH
   /\ LimU /\ CopU /\ FaultU /\ RepU /\ DevU
-  /\ UNCHANGED <<attached, endSt, avail, registered, nsend, ended>>
+  /\ UNCHANGED <<attached, endSt, avail, registered, nsend, ended, endMode>>
 
 \* Bridge.Close() called by someone else (server shutdown, quota enforcement)
 ExtClose ==
@@ -338,7 +386,7 @@ ExtClose ==
   /\ bridgeClosed' = TRUE /\ ended' = "bridge"
   /\ H([a |-> "extclose"])
   /\ LimU /\ CopU /\ FaultU /\ RepU /\ DevU
-  /\ UNCHANGED <<attached, endSt, avail, registered, nsend>>
+  /\ UNCHANGED <<attached, endSt, avail, registered, nsend, endMode>>
 
 \* wg.Wait() returned (or Start failed before the target came): runBridgeLifecycle deletes the map entry
 Unregister ==
@@ -349,7 +397,7 @@ Unregister ==
   /\ bridgeClosed' = TRUE                                \* deferred bridge.Close()
   /\ NoH
   /\ LimU /\ CopU /\ FaultU /\ RepU /\ DevU
-  /\ UNCHANGED <<attached, endSt, avail, nsend, ended>>
+  /\ UNCHANGED <<attached, endSt, avail, nsend, ended, endMode>>
 
 \* the 30 s timer of Start fires before a target was attached
 ReadyTimeout ==
@@ -357,7 +405,7 @@ ReadyTimeout ==
   /\ registered' = FALSE /\ bridgeClosed' = TRUE
   /\ H([a |-> "timeout"])
   /\ LimU /\ CopU /\ FaultU /\ RepU /\ DevU
-  /\ UNCHANGED <<attached, endSt, avail, nsend, ended>>
+  /\ UNCHANGED <<attached, endSt, avail, nsend, ended, endMode>>
 
 \* ghost: the s2t goroutine is parked in Read on the replaced connection while the tunnel is over
 MarkStale ==
@@ -365,12 +413,13 @@ MarkStale ==
   /\ devStale' = TRUE
   /\ NoH
   /\ LimU /\ CopU /\ FaultU /\ RepU
-  /\ UNCHANGED <<attached, endSt, avail, bridgeClosed, registered, nsend, ended, devLimErr, lost, misorder, crashed, dropped>>
+  /\ UNCHANGED <<attached, endSt, avail, bridgeClosed, registered, nsend, ended, devLimErr, lost, misorder, crashed, dropped, endMode>>
 
 Copier(d) == Enter(d) \/ Read(d) \/ Limit(d) \/ Write(d)
 Env == \/ \E e \in Ends : \E c \in Classes : Send(e, c)
        \/ Attach
-       \/ \E e \in Ends : CloseEnd(e) \/ ErrorEnd(e) \/ Arm(e) \/ Glitch(e)
+       \/ \E e \in Ends : \/ \E w \in {"plain", "data"} : CloseEnd(e, w) \/ ErrorEnd(e, w)
+                          \/ Arm(e) \/ \E k \in {"t0", "tn"} : Glitch(e, k)
        \/ ReplaceSource \/ CloseOld \/ ExtClose
 Sys == (\E d \in Dirs : Copier(d)) \/ Refill \/ CloseBridge \/ Unregister \/ ReadyTimeout \/ MarkStale
 Next == Env \/ Sys
@@ -378,14 +427,16 @@ Spec == Init /\ [][Next]_vars
 
 \* weak fairness on the copiers, the clock, Close and the lifecycle goroutine - not on the environment
 Fair == /\ \A d \in Dirs : WF_vars(Copier(d))
-        /\ WF_vars(Refill) /\ WF_vars(CloseBridge) /\ WF_vars(Unregister) /\ WF_vars(ReadyTimeout) /\ WF_vars(MarkStale)
+        /\ WF_vars(Refill /\ ~bridgeClosed)        \* once the bridge is closed nothing may wait for the pacing clock
+        /\ WF_vars(CloseBridge) /\ WF_vars(Unregister) /\ WF_vars(ReadyTimeout) /\ WF_vars(MarkStale)
 LiveSpec == Spec /\ Fair
 
 \* ---- properties (statement of C02) ------------------------------------------------------------
 TypeOK == /\ lim \in Lims /\ tokens \in 0..BUF /\ attached \in BOOLEAN /\ bridgeClosed \in BOOLEAN
           /\ \A d \in Dirs : /\ pc[d] \in {"idle", "start", "read", "limit", "write", "done"}
                              /\ inflight[d] \in 0..BUF /\ paid[d] \in 0..BUF
-          /\ \A e \in Ends : endSt[e] \in {"open", "closed", "failed"}
+          /\ \A e \in Ends : endSt[e] \in {"open", "closed", "failed"} /\ glitch[e] \in {"no", "t0", "tn"} /\ endMode[e] \in {"plain", "data"}
+          /\ \A d \in Dirs : rdErr[d] \in {"none", "eof", "err"}
           /\ rdgen \in {1, 2} /\ ended \in {"none", "close", "error", "bridge"}
 
 \* what an end has received is a prefix of what the other end sent: every chunk is written at the
@@ -400,14 +451,14 @@ NoSpontaneousEnd      == Untouched => (~bridgeClosed /\ \A d \in Dirs : pc[d] # 
 NoSpontaneousEndKnown == Untouched => (devLimErr \/ (~bridgeClosed /\ \A d \in Dirs : pc[d] # "done" /\ lost[d] = 0))
 
 \* ... and once the copiers have nothing left to do, everything sent has been delivered
-Idle(d) == pc[d] = "read" /\ avail[RdChan(d)] = <<>> /\ ~glitch[Src(d)]
+Idle(d) == pc[d] = "read" /\ avail[RdChan(d)] = <<>> /\ glitch[Src(d)] # "t0"
 Complete      == (Untouched /\ attached /\ ~replaced /\ \A d \in Dirs : Idle(d)) => \A d \in Dirs : delivered[d] = sent[d]
 CompleteKnown == (Untouched /\ attached /\ ~replaced /\ \A d \in Dirs : Idle(d)) => (devLimErr \/ \A d \in Dirs : delivered[d] = sent[d])
 
 \* both directions progress independently: a direction with unread or buffered bytes can always take
 \* a step (or only waits for the clock) while the tunnel is up - whatever the other direction does
 CanStep(d) == \/ pc[d] = "start"
-              \/ pc[d] = "read" /\ (avail[RdChan(d)] # <<>> \/ glitch[Src(d)])
+              \/ pc[d] = "read" /\ (avail[RdChan(d)] # <<>> \/ glitch[Src(d)] = "t0")
               \/ pc[d] = "write"
               \/ pc[d] = "limit" /\ (lim = "large" \/ tokens > 0 \/ inflight[d] > Burst(lim))
               \/ pc[d] = "limit" /\ tokens < Burst(lim)                          \* Refill enabled
